@@ -36,7 +36,8 @@ class Arg:
 
 class Call:
     def __init__(self, name, fn, args, kwargs=None, out=(), row0=False, schema=None,
-                 expect_index=None):
+                 expect_index=None, row0_p=0.2):
+        self.row0_p = row0_p      # probability of the scalar-vs-stacked form
         self.name = name
         self.fn = fn
         self.args = args
@@ -492,10 +493,11 @@ def _(cx, r):
                         180.00001])
     mask = r.random(cx.n) < 0.25
     a[mask] = r.choice(special, int(mask.sum()))
-    if r.random() < 0.3:
+    if r.random() < 0.5:
         a[0] = float(r.choice(special))
     if form == 0:
-        return Call('util.to_180_range', util.to_180_range, [Arg(a, 'vec')], row0=True)
+        return Call('util.to_180_range', util.to_180_range, [Arg(a, 'vec')], row0=True,
+                    row0_p=0.5)
     if form == 1:
         return Call('util.to_180_range[Series]', util.to_180_range,
                     [Arg(pd.Series(a), 'plain')])
